@@ -1941,6 +1941,10 @@ class Interp:
         if m == "split":
             if len(args) == 1 and isinstance(args[0], str) and args[0]:
                 return SplitView(o, args[0])
+            if not args:
+                words = self.split_structural(t)
+                if words is not None:
+                    return words
             raise Unsupported("split() form")
         if m == "format":
             raise Unsupported("str.format with symbolic value")
@@ -1953,6 +1957,43 @@ class Interp:
                     raise pyraise("ValueError", "substring not found")
                 return SInt(idx)
         raise Unsupported("str.%s" % m)
+
+    def split_structural(self, t):
+        """str.split() (white-space separated words) of a concatenation of literals and declared symbols that are never
+        empty and contain no white space: the word boundaries are exactly the white space of the literals (exact).
+        Returns a Python list of str / SStr, or None when a leaf is not of that form."""
+        if self.charsets is None:
+            return None
+        words, cur, open_word = [], [], False
+        for lf in _concat_leaves(t):
+            if z3.is_string_value(lf):
+                txt = lf.as_string()
+                i = 0
+                while i < len(txt):
+                    if txt[i] in smt.WSCHARS:
+                        if cur:
+                            words.append(cur)
+                            cur = []
+                        i += 1
+                        continue
+                    j = i
+                    while j < len(txt) and txt[j] not in smt.WSCHARS:
+                        j += 1
+                    cur.append(z3.StringVal(txt[i:j]))
+                    i = j
+                continue
+            if not (z3.is_const(lf) and lf.decl().name() in self.charsets and lf.decl().name() in self.nonempty):
+                return None
+            if any(c in smt.WSCHARS for c in self.charsets[lf.decl().name()]):
+                return None
+            cur.append(lf)
+        if cur:
+            words.append(cur)
+        out = []
+        for w in words:
+            r = z3.simplify(w[0] if len(w) == 1 else z3.Concat(*w))
+            out.append(r.as_string() if z3.is_string_value(r) else SStr(r))
+        return out
 
     def strip_structural(self, t, mode):
         """strip over a concatenation whose outermost non-blank piece is a declared symbol that is never empty and
